@@ -227,11 +227,15 @@ func c16Generate(ctx *Ctx, ops []fop, schemas []string, cfg fcfg, fw string) err
 	case "iris":
 		o.Generate.IrisServer = true
 	}
-	if len(cfg.Et) >= 2 {
+	if len(cfg.Et)+len(cfg.Ei) >= 1 {
 		// the same loaded document first generated with a weaker filter (one exclusion less): what the second call embeds,
 		// declares and routes is what its own filter leaves (the first call removed only operations the second removes too)
 		weaker := cfg
-		weaker.Et = cfg.Et[:len(cfg.Et)-1]
+		if len(cfg.Et) > 0 {
+			weaker.Et = cfg.Et[:len(cfg.Et)-1]
+		} else {
+			weaker.Ei = cfg.Ei[:len(cfg.Ei)-1]
+		}
 		ow := weaker.config()
 		ow.PackageName = "api"
 		ow.Generate = o.Generate
